@@ -139,6 +139,16 @@ func replay(args map[string]string) error {
 						c.LowSpaceRatio, c.HighSpaceRatio = 0.7, 0.7
 					case "i5":
 						c.TolerantSizeRatio = -1
+					case "v5":
+						// a store limit is added to the copy (the map is part of the schedule section)
+						c.StoreLimit[uint64(1+si%3)] = config.StoreLimitConfig{AddPeer: float64(40 + si), RemovePeer: float64(40 + si)}
+					case "v6":
+						// every store limit is dropped again (an empty, non-nil map is the state of a fresh cluster)
+						c.StoreLimit = map[uint64]config.StoreLimitConfig{}
+					case "i7":
+						// ... together with a value that fails validation: nothing of the request may stay
+						c.StoreLimit[uint64(4+si%3)] = config.StoreLimitConfig{AddPeer: float64(70 + si), RemovePeer: float64(70 + si)}
+						c.LowSpaceRatio = 1.5
 					case "i6":
 						// same length as the served list, first entry replaced by an unregistered type
 						c.Schedulers = append(config.SchedulerConfigs{}, c.Schedulers...)
@@ -149,7 +159,7 @@ func replay(args map[string]string) error {
 						}
 					}
 					call = func() error { return s.SetScheduleConfig(c) }
-					if si%2 == 0 && val != "v2" && val != "v4" && val != "i3" && val != "i4" {
+					if si%2 == 0 && val != "v2" && val != "v4" && val != "v5" && val != "v6" && val != "i3" && val != "i4" && val != "i7" {
 						// the same update through the HTTP API (POST /pd/api/v1/config). The handler applies a request key by
 						// key, each key being one change, so only single-key updates are sent this way.
 						body := map[string]interface{}{}
